@@ -100,7 +100,7 @@ func refDiff(r *refLog, e ent) string {
 		return ""
 	}
 	// the revision number (HC) is index bookkeeping, not part of what the property speaks about: counted, not judged
-	if r.HC != e.hc {
+	if r.HC != e.hc && r.Tx == e.tx {
 		hcMismatch.Add(1)
 	}
 	ok := r.Tx == e.tx && r.MD == e.md
